@@ -1610,6 +1610,11 @@ func run(src, funcs, skip, out, prelude string) (err error) {
 		sb.WriteString(fi.text)
 		sb.WriteString("\n")
 	}
+	// the text is regenerated on every run; the file is rewritten only when the text
+	// differs, so that make does not recompile the proofs of an unchanged source
+	if old, e := os.ReadFile(out); e == nil && string(old) == sb.String() {
+		return nil
+	}
 	return os.WriteFile(out, []byte(sb.String()), 0o644)
 }
 
